@@ -271,7 +271,7 @@ def discharge(vcs, budget_ms=10000, serial=False):
 
 
 def cross_check(vcs, budget_ms=20000):
-    todo = [v for v in vcs if v.status == "unsat" and v.solver in ("z3", "cvc5")]
+    todo = [v for v in vcs if v.status == "unsat" and v.solver in ("z3", "cvc5") and v.smt2]      # only VCs whose text was kept
     jobs = [(v.smt2, v.has_strings, v.solver, budget_ms) for v in todo]
     results = list(pool().map(cross_check_one, jobs, chunksize=1)) if jobs else []
     disagreements = []
